@@ -62,8 +62,12 @@ def _downgrade_for_unmodelled_libraries(ctx, prog, consulted):
     uses = unmodelled_library_uses(prog, consulted)
     if not uses:
         return
+    from . import report as _rp
+    known = _rp.load_known()
     for ob in ctx.obligations:
         if ob.verdict == 'VIOLATED' and not ob.rule.endswith('.PURE'):
+            if _rp.match_known(known, ctx.pid, ob) is not None:
+                continue            # a recorded known finding stays what it is
             ob.verdict = 'UNDECIDED'
             ob.details.append('the functions this property consults use %s, which the evaluator has no summary for: values behind '
                               'such a call are unknown to it, so the differences listed above are not reported as violations'
